@@ -16,7 +16,7 @@ use crate::route::{Route, RouteHandler, SubApp};
 use crate::stream::Stream;
 use crate::thread::pool::ThreadPool;
 
-use std::io::Write;
+use std::io::{BufReader, Write};
 use std::net::{IpAddr, Ipv4Addr, Ipv6Addr, SocketAddr, TcpListener, TcpStream, ToSocketAddrs};
 use std::sync::atomic::{AtomicBool, Ordering};
 use std::sync::mpsc::Receiver;
@@ -548,7 +548,7 @@ where
 ///   received without the `Connection: Keep-Alive` header.
 #[allow(clippy::too_many_arguments)]
 fn client_handler<State>(
-    mut stream: Stream,
+    stream: Stream,
     subapps: Arc<Vec<SubApp<State>>>,
     default_subapp: Arc<SubApp<State>>,
     error_handler: Arc<ErrorHandler>,
@@ -564,11 +564,15 @@ fn client_handler<State>(
         return;
     };
 
+    // One buffered reader serves the whole connection, so that bytes read beyond the end of one request
+    //   (for example pipelined requests arriving in the same segment) are kept for the next one
+    let mut reader = BufReader::new(stream);
+
     loop {
         // Parses the request from the stream
         let request = match timeout {
-            Some(timeout) => Request::from_stream_with_timeout(&mut stream, addr, timeout),
-            None => Request::from_stream(&mut stream, addr),
+            Some(timeout) => Request::from_buffered_stream_with_timeout(&mut reader, addr, timeout),
+            None => Request::from_buffered_stream(&mut reader, addr),
         };
 
         let cloned_state = state.clone();
@@ -578,7 +582,13 @@ fn client_handler<State>(
             if req.headers.get(&HeaderType::Upgrade) == Some("websocket") {
                 monitor.send(Event::new(EventType::WebsocketConnectionRequested).with_peer(addr));
 
-                call_websocket_handler(req, &subapps, &default_subapp, cloned_state, stream);
+                call_websocket_handler(
+                    req,
+                    &subapps,
+                    &default_subapp,
+                    cloned_state,
+                    reader.into_inner(),
+                );
 
                 monitor.send(Event::new(EventType::WebsocketConnectionClosed).with_peer(addr));
                 break;
@@ -692,7 +702,7 @@ fn client_handler<State>(
         let status = response.status_code;
         let response_bytes: Vec<u8> = response.into();
 
-        if let Err(e) = stream.write_all(&response_bytes) {
+        if let Err(e) = reader.get_mut().write_all(&response_bytes) {
             monitor.send(
                 Event::new(EventType::RequestServedError)
                     .with_peer(addr)
